@@ -256,6 +256,34 @@ package at
 //@   loop 7 invariant true
 //@   may_panic
 
+// ... and a key value that is NULL in the statement (the database generates it) is replaced by the
+// generated one: left as it is, the after image finds no row, no undo log is written for a row that
+// exists, and the row survives the rollback. auto_asked: the generated keys were fetched.
+//@ ghost var auto_asked bool
+//@ func (*insertExecutor).getPkValuesByAuto
+//@   trusted
+//@   modifies ghost.auto_asked
+//@   ensures ghost.auto_asked
+//@ func pkValuesMapMerge
+//@   prop C01 C03
+//@   requires dest != nil
+//@   let w := some(string, "w")
+//@   modifies entries(*dest)
+//@   may_panic
+//@   loop 1 invariant the-generated-values-take-the-place-of-the-placeholders: visited(w, 1) ==> len((*dest)[w]) == len(src[w])
+//@   ensures the-generated-values-take-the-place-of-the-placeholders: haskey(src, w) ==> len((*dest)[w]) == len(src[w])
+//@ func (*insertExecutor).isAstStmtValid
+//@   trusted
+//@   ensures true
+//@ func (*insertExecutor).getPkValuesByColumn
+//@   prop C01 C03
+//@   requires i != nil && i.parserCtx != nil && i.execContext != nil && execCtx != nil && !ghost.auto_asked
+//@   modifies ghost.auto_asked
+//@   let k := some(string, "k")
+//@   local pkValuesMap map[string][]interface{}
+//@   loop 1 invariant a-null-key-is-never-left-as-it-is: !ghost.auto_asked ==> (visited(k, 1) && len(atloop(1, pkValuesMap[k])) > 0 ==> atloop(1, pkValuesMap[k])[0] != nil)
+//@   may_panic
+
 // C01: what the images record. A NULL column is recorded as nil - never as the zero value of its type,
 // which rollback would then write back in place of the NULL - and a present value as itself.
 //@ func getSqlNullValue
